@@ -28,7 +28,7 @@ from harness.core import Machinery
 from harness.gnpy_util import EX, TD
 from harness import planning_util as pu
 
-CLAUSES16 = ('Independent', 'ModelAgrees', 'OnlySlotsDependOnHistory', 'NetworkFrozen', 'SimParamsFrozen',
+CLAUSES16 = ('OneEntryPerRequest', 'Independent', 'ModelAgrees', 'OnlySlotsDependOnHistory', 'NetworkFrozen', 'SimParamsFrozen',
              'OrderIndependent')
 
 
@@ -84,6 +84,10 @@ def prepare_pool(bench, chk):
         if run.exc:
             chk.violation(f'B2|exception-in-planning|{c}|{run.exc.split(":")[0]}',
                           dict(bench=bench, cls=c, exception=run.exc, tb=run.tb))
+            return None, None
+        if len(run.entries) != 1:
+            chk.violation(f'B2|OneEntryPerRequest|{bench}|{c}|alone',
+                          dict(bench=bench, cls=c, request=r, entries=[e['e']['idstr'] for e in run.entries]))
             return None, None
         got = run.entries[0]['o']
         if got['reason'] != SOLO_STATUS[c] or (c == 'sat' and got['mode'] != 'd1'):
@@ -166,7 +170,7 @@ def b2(chk, bench, hists):
                           dict(bench=bench, order=order, exception=run.exc, tb=run.tb))
             continue
         if [e['e']['idstr'] for e in run.entries] != order:
-            chk.violation(f'B2|response-order|{bench}', dict(order=order, got=[e['e']['idstr'] for e in run.entries]))
+            chk.violation(f'B2|OneEntryPerRequest|{bench}|batch', dict(order=order, got=[e['e']['idstr'] for e in run.entries]))
             continue
         c16 = {i: dict(exp=h['st'][i], solo=solo_core[c], unit=i + 1) for i, c in enumerate(order)}
         traces.append(pu.trace_of(run, c16=c16, j19=False))
@@ -213,7 +217,7 @@ def reorder(data, order):
     return d
 
 
-def b3_file(chk, bench, label, data, orders, solo_cache, api=True, warm=False):
+def b3_file(chk, bench, label, data, orders, solo_cache, api=True, warm=False, builder=None):
     """the batch in several orderings (the first one is the reference) and, last, built through the API; every entry is
     compared with (solo) the run of its unit alone and (ref) the same entry of the reference ordering"""
     traces, runs = [], {}
@@ -224,16 +228,23 @@ def b3_file(chk, bench, label, data, orders, solo_cache, api=True, warm=False):
     if warm:            # the same batch on a designed network that was already used to simulate its forced-mode requests
         used = [r for r in data['path-request'] if r['path-constraints']['te-bandwidth'].get('trx_mode')]
         if used:
-            todo.append(('used-network', orders[0][1], 'json', used))
+            heavy = copy.deepcopy(used[0])                  # ... and a SATURATING comb between the same ends
+            heavy['path-constraints']['te-bandwidth'].update({'trx_type': 'VerifDense', 'trx_mode': 'd1', 'spacing': 25e9,
+                                                              'max-nb-of-channel': None,
+                                                              'effective-freq-slot': [{'N': None, 'M': None}]})
+            heavy['request-id'] = 'saturating-comb'
+            todo.append(('used-network', orders[0][1], 'json', pu.loadable(bench, [heavy]) + used))
     lab = label.split('-')[0].split('@')[0]
+    ids0 = [str(r['request-id']) for r in data['path-request']]
     for oname, order, via, warm_reqs in todo:
-        d = reorder(data, order)
+        # builder: the batch comes from another entry point (a service sheet holding exactly these rows, in this order)
+        d = builder([ids0[k] for k in order]) if builder else reorder(data, order)
         name = f'{label}:{oname}'
         run = pu.run_batch(bench, d, name, via=via, warm=warm_reqs)
         chk.case(name, nontrivial=len(order) > 1)
-        if run.warm_changed:       # simulating on the network's own elements changed its settings (clamped gains): the
-            chk.cov['used_network_runs_unjudged'] = chk.cov.get('used_network_runs_unjudged', 0) + 1    # premise is gone
-            continue
+        if run.warm_changed:       # the exported operating gain moved (amplifiers clamped by the warm-up): counted only -
+            chk.cov['used_network_runs_with_clamped_amplifiers'] = \
+                chk.cov.get('used_network_runs_with_clamped_amplifiers', 0) + 1    # the DESIGNED settings must survive
         if run.exc:
             if run.refused and ref is None and via == 'json':
                 chk.cov['b3_batches_refused_by_the_code'] = chk.cov.get('b3_batches_refused_by_the_code', 0) + 1
@@ -253,7 +264,8 @@ def b3_file(chk, bench, label, data, orders, solo_cache, api=True, warm=False):
             if len(u) == len(run.inputs) and via == 'json':
                 solo_cache.setdefault(key, run)            # the unit is the whole batch: this run IS its run alone
             if key not in solo_cache:
-                solo_cache[key] = pu.run_batch(bench, restrict(d, u), f'{label}:solo:{"+".join(u)}')
+                solo_cache[key] = pu.run_batch(bench, builder(list(u)) if builder else restrict(d, u),
+                                               f'{label}:solo:{"+".join(u)}')
             srun = solo_cache[key]
             solo = None
             if srun.exc:
@@ -380,6 +392,13 @@ def run(chk):
             orders = [('original', list(range(n))), ('reversed', list(reversed(range(n))))]
             jobs += b3_file(chk, bench, f'{label}@{bench}', {'path-request': reqs}, orders, cache, warm=True,
                             api=chk.tier == 'thorough')
+    # the XLSX service-sheet entry point (site names resolved to the amplifier of the crossing direction): a sheet with
+    # all the rows, in two orders, against sheets holding one row each
+    rows = pu.sheet_rows()
+    ids = list(rows) if chk.tier == 'thorough' else list(rows)[:5]
+    orders = [('original', list(range(len(ids)))), ('reversed', list(reversed(range(len(ids)))))]
+    jobs += b3_file(chk, 'ila', 'sheet@ila', {'path-request': [{'request-id': i} for i in ids]}, orders, cache, api=False,
+                    builder=pu.sheet_builder(rows))
     # synchronization vectors with several feasible disjoint combinations: every ordering of the path-request list
     for bench in (['meshV2'] if chk.tier == 'quick' else ['meshV2', 'testTopology']):
         for label, data in pu.sync_batches(bench):
@@ -452,8 +471,12 @@ def run(chk):
     chk.assume('reported views compared between runs: response entry (route, mode, metrics, z-a block), the CSV row of '
                'jsontocsv (all columns; bandwidth / pass flag / cost only when neither run blocked the request in spectrum '
                'assignment), the receivers at the return of each propagation and the element list of the reverse path')
-    chk.assume('used-network runs: the forced-mode requests of the batch are first simulated one by one on the network\'s own '
-               'elements (compute_constrained_path + propagate); judged only when that left network_to_json unchanged')
+    chk.assume('used-network runs: a saturating comb and the forced-mode requests of the batch are first simulated one by one '
+               'on the network\'s own elements (compute_constrained_path + propagate); planning() on that network must give '
+               'every request the result it has on a fresh network (the operating gain exported by network_to_json may have '
+               'been clamped by the warm-up - the designed gain must not)')
+    chk.assume('service sheets: json_io.load_requests on a copy of tests/data/ila_constraint.xlsx whose Service sheet holds the '
+               'rows of the batch (all of them / one of them)')
     chk.assume('network settings are observed through json_io.network_to_json (one CRC per exported element) plus the element '
                'list of every OMS (from the start of routing to the end of planning)')
     chk.assume('bench equipment = shipped eqpt_config.json plus two library transceiver types (VerifDense 25 GHz comb, '
